@@ -522,25 +522,30 @@ def replicateNsEntry (moreNs : List Bytes) (afterNs metricsLen : Nat) (mb : PBuf
   moreNs.foldl (fun mb ns =>
     ((mb.pushRaw (bytes! ",{\"Namespace\":")).pushRaw ns).extendFromWithin afterNs metricsLen) mb
 
+/-- what the loop body does to `entry.metrics_buf`: close the directive, replicate it for the other
+namespaces, append the log group and the timestamp -/
+def finishEntryMetrics (c : Consts) (tsStr : Bytes) (e : DimEntry) : PBuf :=
+  let mb := e.metricsBuf.pushRaw (bytes! "]}")
+  let mb := replicateNsEntry c.moreNs e.afterNsIndex mb.buf.length mb
+  (mb.pushRaw c.logGroupTs).pushRaw tsStr
+
 /-- the body of `for entry in dimension_set_map.values_mut()`; stops at the first I/O error -/
 def finishDims (c : Consts) (tsStr : Bytes) (stringFields : Bytes) :
     List DimEntry → Out → Bool → List DimEntry × Out × Bool
   | [], out, any => ([], out, any)
   | e :: rest, out, any =>
-    let mb := e.metricsBuf.pushRaw (bytes! "]}")
-    let metricsLen := mb.buf.length
-    let mb := replicateNsEntry c.moreNs e.afterNsIndex metricsLen mb
-    let mb := (mb.pushRaw c.logGroupTs).pushRaw tsStr
+    let mb := finishEntryMetrics c tsStr e
     let e' := { e with metricsBuf := mb }
     if e.fieldsBuf.isEmpty then
-      match finishDims c tsStr stringFields rest out any with
-      | (rest', out', any') => (e' :: rest', out', any')
+      -- "skip metric line with no metrics"
+      let r := finishDims c tsStr stringFields rest out any
+      (e' :: r.1, r.2.1, r.2.2)
     else
       let out' := out.writeAll [mb.buf, e.fieldsBuf.buf, stringFields]
       if out'.failed then (e' :: rest, out', true)
       else
-        match finishDims c tsStr stringFields rest out' true with
-        | (rest', out'', any') => (e' :: rest', out'', any')
+        let r := finishDims c tsStr stringFields rest out' true
+        (e' :: r.1, r.2.1, r.2.2)
 
 def pushDimensions : List Bytes → Bool → PBuf → PBuf
   | [], _, b => b
